@@ -131,7 +131,9 @@ func (v *version) Clone() *version {
 	clone.nonce = make([]byte, len(v.nonce))
 	copy(clone.nonce, v.nonce)
 
-	// not copying metadata
+	// not copying metadata: the new version starts without any, and must not share (and
+	// later write into) the map of the version it was cloned from
+	clone.metadata = nil
 
 	return &clone
 }
